@@ -86,7 +86,13 @@ def t1(ctx, rid):
     else:
         ctx.ok(rid, 'ctor|Blob::open_new', prog.fns[OPEN_NEW].where(), 'open_new builds its index with Index::new')
     n = 0
-    for (f, bb, o, how) in core.field_sources(prog, 'storage::core::Safe', 'active_blob'):
+    sources = list(core.field_sources(prog, 'storage::core::Safe', 'active_blob'))
+    # method-based stores: Option::insert / replace / get_or_insert on the slot
+    for g in prog.fns.values():
+        for c in g.calls:
+            if c.name in ('insert', 'replace', 'get_or_insert') and c.path.startswith('std::option::Option') and prims.receiver_field(g, c) == 'active_blob' and len(c.args) > 1 and c.bb in g.reachable():
+                sources.append((g, c.bb, c.args[1], 'store:method:' + c.name))
+    for (f, bb, o, how) in sources:
         root = prog.fns[f.id].root
         if how == 'construct':
             k = core.op_const(o)
@@ -398,10 +404,35 @@ def t5(ctx, rid):
         raise core.AnchorLost('InMemory transitions: %d' % n)
 
 
+def t6(ctx, rid):
+    """leaf ids are positions in HierarchicalFilters.children and stale leaves keep pointing at them: the vector only grows
+    (vacated slots are set to None), it is never shrunk"""
+    prog = ctx.prog
+    n = 0
+    SHRINK = ('pop', 'truncate', 'remove', 'swap_remove', 'drain', 'clear', 'retain', 'split_off', 'dedup', 'resize')
+    for f in prog.fns.values():
+        if f.file != 'src/filter/hierarchical.rs':
+            continue
+        for c in f.calls:
+            if not c.path.startswith('std::vec::Vec') or prims.receiver_field(f, c) != 'children':
+                continue
+            ty = prims.receiver_root_type(f, c)
+            if 'Leaf' not in c.full and 'Option' not in c.full:
+                continue
+            n += 1
+            if c.name in SHRINK:
+                ctx.bad(rid, 'children-only-grows|%s|%s' % (prog.fns[f.id].root, c.name), c.where(), 'the closed-blob vector is shrunk by `%s`: child ids are positions in it, the filter tree keeps a leaf for the old id, and the next push reuses it (two leaves for one blob: duplicated entries in read_all)' % c.name)
+            else:
+                ctx.ok(rid, 'children-op|%s|%s' % (prog.fns[f.id].root, c.name), c.where(), 'non-shrinking', nontrivial=False)
+    if n < 4:
+        raise core.AnchorLost('operations on HierarchicalFilters.children: %d' % n)
+
+
 RULES = [
     Rule('C04.T1', 'every value stored into the active-blob slot is certified to have an in-memory index (open_new, load_index ok, or popped after load_index ok on the last element)', t1, 7),
     Rule('C04.T2', 'every index push is dominated by an InMemory-establishing event, in the body or in every caller, or acts on the active-blob slot', t2, 3),
     Rule('C04.T3', 'Blob::dump is never applied to the blob sitting in the active slot', t3, 3),
     Rule('C04.T4', 'a blob in transit between the active slot and the closed list stays under the exclusive storage guard until handed back', t4, 3),
     Rule('C04.T5', 'every transition of an existing index to InMemory re-initialises its filter', t5, 2),
+    Rule('C04.T6', 'the closed-blob vector (child ids are positions) is never shrunk', t6, 4),
 ]
